@@ -264,6 +264,8 @@ def _render_flat(parts, style):
             out.append(p[1].replace("{", "").replace("}", ""))
         elif p[0] == "expr":
             out.append(("{%s}" % p[1]) if style == "python" else (":%s" % p[1]))
+        elif p[0] == "esc" and style == "python":
+            out.append(p[1])          # a doubled brace: the python templater's `escaped` slice, rendering to one brace
     return "".join(out)
 
 
@@ -471,6 +473,7 @@ def _token_positions(tier, seed):
     from sqlfluff.core.parser import Lexer
     from sqlfluff.core.templaters import TemplatedFile
     rng = random.Random(f"c01-positions-{seed}")
+    rng_esc = random.Random(f"c01-positions-esc-{seed}")
     t0 = time.time()
     ev = nontriv = 0
     firsts = {}          # clause id -> (size, witness detail)
@@ -530,6 +533,9 @@ def _token_positions(tier, seed):
                 parts = _gen_parts(rng, 0, rng.randint(1, 6))
             else:
                 parts = [p for p in _gen_parts(rng, 2, rng.randint(1, 8))]
+                if templater == "python" and k % 2:          # every other python template also gets doubled braces
+                    for _ in range(rng_esc.randint(1, 3)):
+                        parts.insert(rng_esc.randint(0, len(parts)), ("esc", rng_esc.choice(["{{", "}}"])))
             d = tdialects[k % len(tdialects)]
             bad, src, res = _eval_template(parts, d, templater)
             if bad is None:
@@ -580,7 +586,7 @@ def _token_positions(tier, seed):
     return {"name": "token-positions",
             "bound": f"(a) {n_untemplated} untemplated strings (length <= 20 over {len(_ALPHA)} characters) = {per} x {len(dialects)} bundled dialects; "
                      f"(b) {ev - n_untemplated} templates (jinja <= 6 parts, nesting <= 2, if/else/for with 0-2 iterations/comments/set/expressions rendering to "
-                     f"'' 'b' 'c, d' whitespace newline; placeholder and python: literals + parameters) x {len(tdialects)} dialects; "
+                     f"'' 'b' 'c, d' whitespace newline; placeholder and python: literals + parameters, python also doubled braces) x {len(tdialects)} dialects; "
                      f"{skipped} templates rejected by their templater",
             "rule": "non-trivial = untemplated: has an unlexable token or > 6 tokens; templated: more than one file slice",
             "evaluations": ev, "distinct_nontrivial": nontriv, "samples": samples, "failed": failed,
